@@ -774,6 +774,13 @@ def r4_channel_pairs(repo=None):
                     kept = norm(ast.unparse(t.comparators[0]))
                     return any(isinstance(y, ast.Call) and isinstance(y.func, ast.Attribute) and y.func.attr == "append"
                                and norm(ast.unparse(y.func.value)) == kept for y in ast.walk(lp))
+                # `P = <pair built from the loop variable>; if P in kept: continue; kept.append(P)`: what is tested is what is kept
+                if isinstance(t, ast.Compare) and len(t.ops) == 1 and isinstance(t.ops[0], ast.In):
+                    kept = norm(ast.unparse(t.comparators[0]))
+                    left = norm(ast.unparse(t.left))
+                    apps_ = [y for y in ast.walk(lp) if isinstance(y, ast.Call) and isinstance(y.func, ast.Attribute) and y.func.attr == "append"
+                             and norm(ast.unparse(y.func.value)) == kept]
+                    return bool(apps_) and all(len(y.args) == 1 and norm(ast.unparse(y.args[0])) == left for y in apps_)
                 return False
 
             def is_below_test(c):
